@@ -446,7 +446,7 @@ def run(ctx: lib.Ctx) -> None:
     rng = ctx.rng
     ctx.rule = ('random secret exponents of the four curves (uniform and boundary scalars: 1, n-1, leading zero bytes) x messages as bytes / hex str '
                 '(plain, 0x, upper case, spaced) / ASCII text / non-ASCII x generic and curve-specific form; for each: sign, verify under the key and '
-                'its public half, CHECK_SIGNATURE, then altered message/signature/key (one bit or one byte) and a different key; malformed stream: '
+                'its public half, CHECK_SIGNATURE, then altered message/signature/key (one bit or one byte) and a different key; single-character alterations of the signature text in its prefix / body / checksum region; malformed stream: '
                 'no/empty secret, unknown curve tag, foreign-curve and generic prefixes, bad checksum, truncated text, signature as bytes; plus a '
                 'scrub_input stream over a whitespace/hex/non-ASCII alphabet. non-trivial = the native primitive was reached or the input is '
                 'longer than one character; distinct = distinct (operation, key, message, signature). Boundary message lengths 0/1/31/32/33/63/64/65/127/128/129 (and 32 bytes as 64-digit hex) for every curve with independent verification and message/digest confusion. Cross-curve matrix: every key curve x every signature form '
@@ -516,7 +516,28 @@ def run(ctx: lib.Ctx) -> None:
                             ok2, pk2 = lib.call(lambda: Key.from_public_point(p2, curve).public_key())
                             if ok2:
                                 impl_checksig(cs, pk2, s2, m2, 'altered-' + what)
-                    # malformed signature texts (cheap: rejected before any curve arithmetic, except the generic re-labelling)
+                    # character-level alterations of the signature STRING (prefix, body, the last six characters = checksum region):
+                    # an altered text must never verify — Key.verify raises (or at least does not return True), CHECK_SIGNATURE not True
+                    if ki < ctx.n(2, 40) and mi == 0:
+                        b58 = '123456789ABCDEFGHJKLMNPQRSTUVWXYZabcdefghijkmnopqrstuvwxyz'
+                        plen = 3 if s.startswith('sig') else 5
+                        spots = [rng.randrange(0, plen), rng.randrange(plen, len(s) - 6)] + [len(s) - 1 - j for j in rng.sample(range(6), 3 if not heavy else 2)]
+                        for pos in spots:
+                            s2 = s[:pos] + rng.choice([ch for ch in b58 if ch != s[pos]]) + s[pos + 1:]
+                            region = 'prefix' if pos < plen else ('checksum' if pos >= len(s) - 6 else 'body')
+                            okc, vc = lib.call(Key.from_public_point(pub, curve).verify, s2, m)
+                            ctx.dist[f'char-altered:{curve.decode()}:{region}:{"returned " + repr(vc) if okc else type(vc).__name__}'] += 1
+                            rpc = {'curve': curve.decode(), 'public_point': pub.hex(), 'genuine_signature': s, 'altered_signature': s2, 'position': pos, 'region': region,
+                                   'message': m if isinstance(m, str) else m.hex(), 'message_is_str': isinstance(m, str),
+                                   'repro': f"Key.from_public_point(bytes.fromhex('{pub.hex()}'), b'{curve.decode()}').verify('{s2}', {m!r})"}
+                            if okc:
+                                report(f'Key.verify accepts a signature text altered in one character of its {region} (returned {vc!r})', rpc)
+                            elif region != 'prefix' and not (heavy and region != 'checksum'):
+                                okk, vk = lib.call(ck.check_signature_impl, pk_txt, s2, mbytes)
+                                if okk and vk is True:
+                                    report(f'CHECK_SIGNATURE pushes True for a signature text altered in one character of its {region}', rpc)
+                            if region == 'checksum' or rng.random() < 0.3:
+                                impl_verify(cs, pub, None, curve, s2, m, 'char-altered-' + region)
                     others = [c for c in ck.CURVES if c != curve]
                     mal = []
                     oc = rng.choice(others)
